@@ -7,18 +7,31 @@
 (* results are left to the real queue.  The model here resolves its own              *)
 (* nondeterminism (sweep window) by firing exactly Must - it only steers generation. *)
 EXTENDS AckQueue, Json
-CONSTANTS Depth, GenKinds
+CONSTANTS Depth, GenKinds, GenAcks, Pre      \* Pre: a sequence of registrations every scenario starts with
 VARIABLES hist
 Call(c) == hist' = Append(hist, c)
-GInit == Init /\ hist = <<>>
-GNext == /\ Len(hist) < Depth
+RECURSIVE Preload(_, _)
+Preload(en, i) == IF i > Len(Pre) THEN en
+                  ELSE Preload(InsertNew(en, <<Pre[i].s, Pre[i].id>>, Pre[i].kind, Pre[i].d, i), i + 1)
+GInit == /\ entries = Preload(<<>>, 1) /\ outcome = <<>> /\ ntag = Len(Pre) + 1
+         /\ hist = [i \in 1..Len(Pre) |-> [op |-> "insert", s |-> Pre[i].s, id |-> Pre[i].id, kind |-> Pre[i].kind, d |-> Pre[i].d, ty |-> "", now |-> 0]]
+NoPre == <<>>
+PreBucket(d1, d2, d3) == << [s |-> "s1", id |-> 1, kind |-> "pub1", d |-> d1], [s |-> "s1", id |-> 2, kind |-> "pub1", d |-> d2],
+                            [s |-> "s1", id |-> 3, kind |-> "pub1", d |-> d3] >>
+Pre123 == PreBucket(5000, 5100, 5400)
+Pre132 == PreBucket(5000, 5400, 5100)
+Pre213 == PreBucket(5100, 5000, 5400)
+Pre231 == PreBucket(5100, 5400, 5000)
+Pre312 == PreBucket(5400, 5000, 5100)
+Pre321 == PreBucket(5400, 5100, 5000)
+GNext == /\ Len(hist) < Depth + Len(Pre)
          /\ \/ \E k \in Keys, kind \in GenKinds, d \in Deadlines :
                   Insert(k, kind, d) /\ Call([op |-> "insert", s |-> k[1], id |-> k[2], kind |-> kind, d |-> d, ty |-> "", now |-> 0])
-            \/ \E k \in Keys, ty \in AckTypes :
+            \/ \E k \in Keys, ty \in GenAcks :
                   /\ ((\E x \in Dom(entries) : x[1] = k[1] /\ x[2] = k[2]) \/ (ty = "PUBACK" /\ k[2] = 1))
                   /\ Ack(k, ty) /\ Call([op |-> "ack", s |-> k[1], id |-> k[2], kind |-> "", d |-> 0, ty |-> ty, now |-> 0])
             \/ \E now \in Sweeps :
                   Sweep(now, Must(entries, now)) /\ Call([op |-> "sweep", s |-> "", id |-> 0, kind |-> "", d |-> 0, ty |-> "", now |-> now])
 GSpec == GInit /\ [][GNext]_<<vars, hist>>
-Dump == (Len(hist) = Depth) => PrintT(<<"BEHAV", ToJson(hist)>>)
+Dump == (Len(hist) = Depth + Len(Pre)) => PrintT(<<"BEHAV", ToJson(hist)>>)
 =============================================================================
